@@ -673,6 +673,49 @@ func runC04(p *core.Prog, r *core.Report) {
 			}
 		})
 		r.Check(keys(wrConsts) == keys(lkConsts) && len(lkConsts) == 2, "C04-R4", "registration and lookup use the same parameter keys", p.FuncPos(parse), "both use {"+keys(lkConsts)+"}", "registration inserts {"+keys(wrConsts)+"} but the lookup consults {"+keys(lkConsts)+"}")
+		// the catch-all arm of the registration is taken for the fragment "*" and for nothing else: one of the two reserved
+		// children is created behind a comparison of the whole fragment with "*" (a test of the first byte only would turn
+		// literal fragments like *.css into catch-alls)
+		{
+			starEdges := map[sx.Edge]bool{}
+			sx.Instrs(parse, func(in ssa.Instruction) {
+				b, ok := in.(*ssa.BinOp)
+				if !ok || (b.Op != token.EQL && b.Op != token.NEQ) || b.Referrers() == nil {
+					return
+				}
+				for _, pr := range [][2]ssa.Value{{b.X, b.Y}, {b.Y, b.X}} {
+					if k, isC := sx.ConstString(pr[1]); !isC || k != "*" || !isStringT(pr[0].Type()) {
+						continue
+					}
+					for _, u := range *b.Referrers() {
+						if iff, ok := u.(*ssa.If); ok {
+							idx := 0
+							if b.Op == token.NEQ {
+								idx = 1
+							}
+							starEdges[sx.Edge{From: iff.Block(), Idx: idx}] = true
+						}
+					}
+				}
+			})
+			nStar := 0
+			sx.Instrs(parse, func(in ssa.Instruction) {
+				c, ok := in.(*ssa.Call)
+				if !ok {
+					return
+				}
+				callee := sx.StaticCallee(c)
+				if callee == nil || !p.InModule(callee) || callee.Signature.Recv() == nil {
+					return
+				}
+				for _, a := range c.Call.Args {
+					if k, isC := sx.ConstString(a); isC && wrConsts[k] && len(starEdges) > 0 && sx.MustPass(parse, nil, in, sx.Cut{Edges: starEdges}) {
+						nStar++
+					}
+				}
+			})
+			r.Check(nStar > 0, "C04-R4", "registration: the catch-all child is created only for the fragment \"*\"", p.FuncPos(parse), "behind a comparison of the whole fragment with \"*\"", "no reserved child is created behind `fragment == \"*\"`: the registration decides the catch-all arm by something weaker (the first byte?), so literal fragments that merely begin with '*' are registered as catch-alls and swallow every longer path")
+		}
 		// method tags: registration and lookup both go through the same table
 		usesW, usesR := false, false
 		sx.Instrs(parse, func(in ssa.Instruction) {
@@ -840,6 +883,71 @@ func runC04(p *core.Prog, r *core.Report) {
 			}
 		}
 		r.Check(okK && nK > 0, "C04-R5", "lookup: every successful return installs the matched route's parameter names", p.FuncPos(find), fmt.Sprintf("%d successful returns, each after Params.K = node.paramNameList of the returned route's node", nK), whyK)
+		// captured values are read by key: outside the lookup (which only appends), an element of Params.V is read at the
+		// index at which the same index into Params.K compared equal to the key asked for
+		{
+			var bad []string
+			nRd := 0
+			inFind := map[*ssa.Function]bool{}
+			for _, f := range findSet {
+				inFind[rootFn(f)] = true
+			}
+			for _, fn := range p.PkgFuncs("httpd") {
+				if inFind[rootFn(fn)] {
+					continue
+				}
+				sx.Instrs(fn, func(in ssa.Instruction) {
+					ia, ok := in.(*ssa.IndexAddr)
+					if !ok || !derivesFromField(ia.X, "Params", vF) || ia.Referrers() == nil {
+						return
+					}
+					isRead := false
+					for _, u := range *ia.Referrers() {
+						if ld, ok := u.(*ssa.UnOp); ok && ld.Op == token.MUL {
+							isRead = true
+						}
+					}
+					if !isRead {
+						return
+					}
+					nRd++
+					// the index is what a search of Params.K for the key returned (slices.Index(ps.K, key)); its sign test is
+					// the bounds rule's business
+					if c, ok := sx.Unspill(ia.Index).(*ssa.Call); ok && len(c.Call.Args) >= 1 && derivesFromField(c.Call.Args[0], "Params", kF) {
+						if n := sx.CalleeName(c); strings.HasPrefix(n, "slices.Index") {
+							return
+						}
+					}
+					// a comparison K[same index] == x whose true edge dominates
+					cut := sx.Cut{Edges: map[sx.Edge]bool{}}
+					sx.Instrs(fn, func(i2 ssa.Instruction) {
+						b, ok := i2.(*ssa.BinOp)
+						if !ok || b.Op != token.EQL || b.Referrers() == nil {
+							return
+						}
+						for _, side := range []ssa.Value{b.X, b.Y} {
+							ld, ok := side.(*ssa.UnOp)
+							if !ok || ld.Op != token.MUL {
+								continue
+							}
+							ka, ok := ld.X.(*ssa.IndexAddr)
+							if !ok || ka.Index != ia.Index || !derivesFromField(ka.X, "Params", kF) {
+								continue
+							}
+							for _, u := range *b.Referrers() {
+								if iff, ok := u.(*ssa.If); ok {
+									cut.Edges[sx.Edge{From: iff.Block(), Idx: 0}] = true
+								}
+							}
+						}
+					})
+					if len(cut.Edges) == 0 || !sx.MustPass(fn, nil, in, cut) {
+						bad = append(bad, "Params.V["+short(sx.ValPath(ia.Index))+"] read in "+fnName(fn)+" at "+p.Pos(in.Pos()))
+					}
+				})
+			}
+			r.Check(len(bad) == 0 && nRd > 0, "C04-R5", "captured values are read at the index of their name", p.FuncPos(find), fmt.Sprintf("%d read(s) of Params.V, each behind K[i] == key for the same i", nRd), strings.Join(bad, "; ")+" is not behind a comparison of Params.K at the same index with the key asked for: a handler gets the value captured for another name (or a leftover of a failed walk)")
+		}
 		// registration stores the list on the method node
 		okS := false
 		whyS := "the registration never stores the parameter name list"
